@@ -438,7 +438,7 @@ func cafsCorrupt(args []string) error {
 			runDownload(i, line, r, c, ref.bytesOf(c.Content))
 		}
 	}
-	if err := vutil.Isolated("cafs-corrupt", *in, res, runBoth, 40*time.Second); err != nil {
+	if err := vutil.Isolated("cafs-corrupt", *in, res, runBoth, 180*time.Second); err != nil {
 		return err
 	}
 	if os.Getenv("VH_CHILD") != "" {
